@@ -65,6 +65,8 @@ func ruleC03(p *Program, r *Run) {
 		return false
 	}
 
+	_ = inRegion
+
 	// ---- kinds: parser table
 	jt := p.PkgVarValue(p.Parser, "joinTypes").(*ast.CompositeLit)
 	parserKinds := map[string]bool{}
@@ -200,124 +202,8 @@ func ruleC03(p *Program, r *Run) {
 	}
 	r.Floor("C03/kinds", 12)
 
-	// ---- leftindex: the left side is the pipeline so far, the right side the result of the recursion
-	var leftDef, recCall, rightDef ast.Node
-	var leftVar types.Object
-	self := FuncObj(pkg, sq)
-	inspectRegion(func(n ast.Node) bool {
-		as, ok := n.(*ast.AssignStmt)
-		if !ok || len(as.Rhs) != 1 {
-			return true
-		}
-		if call, ok := as.Rhs[0].(*ast.CallExpr); ok && Callee(info, call) == self {
-			recCall = as
-			return true
-		}
-		// x := len(dst) - 1
-		if b, ok := ast.Unparen(as.Rhs[0]).(*ast.BinaryExpr); ok && b.Op == token.SUB && as.Tok == token.DEFINE && leftDef == nil {
-			if c, ok := ast.Unparen(b.X).(*ast.CallExpr); ok && IsBuiltinCall(info, c, "len") {
-				if one, ok := constInt(info, b.Y); ok && one == 1 {
-					leftDef = as
-					leftVar = objOf(info, as.Lhs[0])
-				}
-			}
-		}
-		// lastSubquery = dst[len(dst)-1]
-		if ix, ok := ast.Unparen(as.Rhs[0]).(*ast.IndexExpr); ok && recCall != nil && rightDef == nil {
-			if b, ok := ast.Unparen(ix.Index).(*ast.BinaryExpr); ok && b.Op == token.SUB {
-				if c, ok := ast.Unparen(b.X).(*ast.CallExpr); ok && IsBuiltinCall(info, c, "len") && sameExpr(info, c.Args[0], ix.X) {
-					rightDef = as
-				}
-			}
-		}
-		return true
-	})
-	okLeft := leftDef != nil && recCall != nil && leftDef.Pos() < recCall.Pos()
-	if okLeft {
-		// never reassigned
-		inspectRegion(func(n ast.Node) bool {
-			if as, ok := n.(*ast.AssignStmt); ok && as != leftDef {
-				for _, l := range as.Lhs {
-					if objOf(info, l) == leftVar {
-						okLeft = false
-					}
-				}
-			}
-			return true
-		})
-	}
-	r.Check(okLeft, "C03/sides", fn+" left side index is taken before the right-hand pipeline is compiled", p.Pos(joinCase.Pos()), "index of the last subquery so far is saved before the recursive call and not changed afterwards", "the index of the left side is not fixed before the right-hand pipeline is compiled: the join would read its left input from a subquery of the right-hand side")
-	r.Check(rightDef != nil && recCall != nil && rightDef.Pos() > recCall.Pos(), "C03/sides", fn+" right side is the last subquery of the recursion", p.Pos(joinCase.Pos()), "right input = last subquery appended by compiling the parenthesised pipeline", "the right input of the join is not the last subquery produced for the parenthesised pipeline")
-	// the recursion compiles op.Right into the same dst
-	okRec := false
-	if recCall != nil {
-		call := recCall.(*ast.AssignStmt).Rhs[0].(*ast.CallExpr)
-		last := call.Args[len(call.Args)-1]
-		if f := selField(info, last); f != nil && f.Name() == "Right" {
-			okRec = true
-		}
-	}
-	r.Check(okRec, "C03/sides", fn+" compiles the parenthesised pipeline as a query of its own", p.Pos(joinCase.Pos()), "recursive call on op.Right", "the right-hand side is not compiled by a recursive call on op.Right")
-	// which names are written on each side
-	var leftQ, rightQ string
-	for _, ev := range g.events {
-		if !regionFn[ev.Func] || ev.Kind != "Q" || ev.Frame != "" || constOf(info, ev.Arg) != nil {
-			continue // only names taken from subqueries (not the constant aliases, not writes of helpers)
-		}
-		if inRegion(ev.Call) {
-			if leftQ == "" {
-				leftQ = exprStr(ev.Arg)
-			} else {
-				rightQ = exprStr(ev.Arg)
-			}
-		}
-	}
-	okNames := false
-	if leftVar != nil {
-		okNames = strings.Contains(leftQ, "["+leftVar.Name()+"]") && rightDef != nil && strings.HasPrefix(rightQ, exprStr(rightDef.(*ast.AssignStmt).Lhs[0])+".")
-	}
-	r.Check(okNames, "C03/sides", fn+" names written for the two sides", p.Pos(joinCase.Pos()), fmt.Sprintf("left: %s, right: %s", leftQ, rightQ), fmt.Sprintf("the join reads %s as its left and %s as its right input; expected the saved left index and the recursion's last subquery", leftQ, rightQ))
-	// which source is written for the left side is decided by comparing the saved index with the entry length of dst
-	var startVar types.Object
-	if len(sq.Body.List) > 0 {
-		if as, ok := sq.Body.List[0].(*ast.AssignStmt); ok && len(as.Lhs) == 1 && len(as.Rhs) == 1 {
-			if call, ok := as.Rhs[0].(*ast.CallExpr); ok && IsBuiltinCall(info, call, "len") && objOf(info, call.Args[0]) == info.Defs[sq.Type.Params.List[0].Names[0]] {
-				startVar = objOf(info, as.Lhs[0])
-			}
-		}
-	}
-	okGuard, sawPrev, sawSource := startVar != nil && leftVar != nil, false, false
-	if okGuard {
-		lk, sk := p.ObjKey(leftVar), p.ObjKey(startVar)
-		rel := func(o *eventOcc) (known, prevSide bool) {
-			if f := o.St.Get("(" + sk + " <= " + lk + ")"); f != nil && f.HasEq {
-				return true, f.Eq == "true"
-			}
-			if f := o.St.Get("(" + lk + " < " + sk + ")"); f != nil && f.HasEq {
-				return true, f.Eq == "false"
-			}
-			return false, false
-		}
-		for _, o := range g.occs {
-			if !regionFn[o.Ev.Func] || !inRegion(o.Ev.Root) {
-				continue
-			}
-			switch {
-			case o.Ev.Kind == "Q" && o.Ev.Frame == "" && strings.Contains(exprStr(o.Ev.Arg), "["+leftVar.Name()+"]"):
-				sawPrev = true
-				if known, prev := rel(o); !known || !prev {
-					okGuard = false
-				}
-			case o.Ev.Kind == "HOLE" && o.Ev.Callee != nil && fnName(o.Ev.Callee) == "dataSourceSQL", strings.HasPrefix(o.Ev.Frame, "dataSourceSQL@"):
-				sawSource = true
-				if known, prev := rel(o); !known || prev {
-					okGuard = false
-				}
-			}
-		}
-	}
-	r.Check(okGuard && sawPrev && sawSource, "C03/sides", fn+" left side: previous subquery iff this pipeline already produced one", p.Pos(joinCase.Pos()), "path facts: the previous subquery is read exactly when saved index >= len(dst) at entry; otherwise the pipeline's own table", "the choice between `the previous subquery` and `the pipeline's table` as left input is not decided by comparing the saved index with the number of subqueries that existed when this pipeline started: a join at the start of a parenthesised right-hand pipeline would read the outer pipeline's subquery")
-	r.Floor("C03/sides", 5)
+	// ---- sides: which subqueries the join reads (path states, rules_c03b.go)
+	ruleC03Sides(p, r, sq)
 
 	// ---- rewrite of bare names and AND-ing
 	ruleC03Rewrite(p, r)
